@@ -309,10 +309,10 @@ def _adjust_table(ctx, fname):
     return rows
 
 
-def r02_2(ctx):
+def r02_2(ctx, rule="R02.2"):
     for fname, floor in (("adjust_svg_tag_name", 37), ("adjust_svg_attributes", 58), ("adjust_mathml_attributes", 1)):
         rows = _adjust_table(ctx, fname)
-        ctx.floor("R02.2", fname, len(rows), floor)
+        ctx.floor(rule, fname, len(rows), floor)
         seen_k, seen_v = set(), set()
         for k, vals in rows:
             v = [x[1] for x in vals if x[0] == "LOCALNAME"][-1]
@@ -320,17 +320,17 @@ def r02_2(ctx):
             seen_k.add(k)
             seen_v.add(v)
             if not ok:
-                ctx.ob("R02.2", "%s/%s" % (fname, k), False, "entry %r -> %r violates key == lower(value), key != value, injective" % (k, v), "html5ever tree_builder " + fname)
-        ctx.ob("R02.2", fname + "/self-consistent", True, "%d entries: key == ASCII-lowercase(value), key != value, injective" % len(rows))
+                ctx.ob(rule, "%s/%s" % (fname, k), False, "entry %r -> %r violates key == lower(value), key != value, injective" % (k, v), "html5ever tree_builder " + fname)
+        ctx.ob(rule, fname + "/self-consistent", True, "%d entries: key == ASCII-lowercase(value), key != value, injective" % len(rows))
         want = set(SPEC[{"adjust_svg_tag_name": "svg_element_name_adjustments", "adjust_svg_attributes": "svg_attribute_name_adjustments", "adjust_mathml_attributes": "mathml_attribute_name_adjustments"}[fname]])
         ok = seen_v == want
-        ctx.ob("R02.2", fname + "/equals-standard" + ("" if ok else "/" + ",".join(sorted(seen_v ^ want))[:80]), ok,
+        ctx.ob(rule, fname + "/equals-standard" + ("" if ok else "/" + ",".join(sorted(seen_v ^ want))[:80]), ok,
                "the adjusted names are exactly the standard's %d" % len(want) if ok else "missing from the code: %s; not in the standard: %s" % (sorted(want - seen_v), sorted(seen_v - want)), "html5ever tree_builder " + fname)
     rows = _adjust_table(ctx, "adjust_foreign_attributes")
-    ctx.floor("R02.2", "adjust_foreign_attributes", len(rows), 11)
+    ctx.floor(rule, "adjust_foreign_attributes", len(rows), 11)
     gotk = {k for k, _ in rows}
     wantk = set(SPEC["foreign_attribute_adjustments"])
-    ctx.ob("R02.2", "adjust_foreign_attributes/equals-standard" + ("" if gotk == wantk else "/" + ",".join(sorted(gotk ^ wantk))[:80]), gotk == wantk,
+    ctx.ob(rule, "adjust_foreign_attributes/equals-standard" + ("" if gotk == wantk else "/" + ",".join(sorted(gotk ^ wantk))[:80]), gotk == wantk,
            "the adjusted attributes are exactly the standard's %d" % len(wantk) if gotk == wantk else "missing from the code: %s; not in the standard: %s" % (sorted(wantk - gotk), sorted(gotk - wantk)))
     NSURL = {"xlink": "http://www.w3.org/1999/xlink", "xml": "http://www.w3.org/XML/1998/namespace", "xmlns": "http://www.w3.org/2000/xmlns/"}
     for k, vals in rows:
@@ -342,7 +342,7 @@ def r02_2(ctx):
             ok = pre == [p] and loc == [l] and ns == [NSURL.get(p)]
         else:
             ok = k == "xmlns" and loc == ["xmlns"] and ns == [NSURL["xmlns"]] and not pre
-        ctx.ob("R02.2", "adjust_foreign_attributes/" + k, ok, "%r -> prefix %s, namespace %s, local %s" % (k, pre, ns, loc))
+        ctx.ob(rule, "adjust_foreign_attributes/" + k, ok, "%r -> prefix %s, namespace %s, local %s" % (k, pre, ns, loc))
 
 
 def r02_3(ctx):
